@@ -213,7 +213,7 @@ Section FaithfulPareto.
     intros Hc Hs. unfold row_failed. unfold h at 1. rewrite objcols_header. cbn [objcols_of].
     destruct (seq_head m) as [t0 Ht0]; [lia|]. rewrite Ht0. cbn [map]. unfold shows in Hs. subst row.
     rewrite cell_at_map by (apply in_objI; lia). cbn [expected_cell]. unfold consistent in Hc. unfold is_tuple_job.
-    destruct (objective_of j) as [[z| | |]|s|l]; try contradiction; cbn [obji_cell obj_cell negb]; [reflexivity|].
+    destruct (objective_of j) as [[z| | |]|s|l|]; try contradiction; cbn [obji_cell obj_cell negb]; [reflexivity|].
     destruct l as [|z t]; [cbn in Hc; lia|reflexivity].
   Qed.
 
@@ -244,7 +244,7 @@ Section FaithfulPareto.
     - inversion Hc as [|? ? Hcj Hct]; subst. destruct (IH Hct) as (pts & Hp & Hsl).
       unfold succ_rows. cbn [filter]. rewrite (shows_failed j row Hcj Hs).
       unfold is_tuple_job. pose proof Hcj as Hcj'. unfold consistent in Hcj'.
-      destruct (objective_of j) as [[z| | |]|s|l] eqn:Eo; try contradiction; cbn [negb].
+      destruct (objective_of j) as [[z| | |]|s|l|] eqn:Eo; try contradiction; cbn [negb].
       + exists pts. split; assumption.
       + exists (map Z.opp l :: pts). split.
         * cbn [traverse]. rewrite (shows_vec j row l Eo Hcj' Hs). fold (succ_rows h rows'). rewrite Hp. reflexivity.
